@@ -74,6 +74,12 @@ def non_numbers(chk):
               lambda: Container.create_solution(s, w, concentration='1 M', total_quantity=f"{bad} mL"))
         probe(f"Container('c', '{bad} L')", lambda: Container('c', f"{bad} L"))
         probe(f"Container.transfer(a, b, '{bad} uL')", lambda: Container.transfer(a, b, f"{bad} uL"))
+    # a negative amount is refused however small it is (below the rounding of the base unit as well)
+    primer = Substance.solid('primer', 6000)
+    for what, bad in ((primer, '-0.02 nmol'), (w, '-0.03 nL'), (primer, '-0.00004 ug'), (w, '-1e-11 L'), (s, '-5e-12 mol')):
+        probe(f"Container('c', '200 uL', [(water, '20 uL'), ({what.name}, {bad!r})])", lambda: Container('c', '200 uL', [(w, '20 uL'), (what, bad)]))
+        a = Container('a', '1 L', [(w, '10 mL'), (s, '1 g')])
+        probe(f"Container.transfer(a, b, {bad!r})", lambda: Container.transfer(a, Container('b', '1 L'), bad))
     # strings that are not "<number> <unit>" (column-formatted, doubled blank, missing blank, trailing blank): refused by the parser,
     # hence by every operation that takes a quantity -- whatever unit they name
     for bad in ('    5 uL', '250  uL', ' 125 uL', '5uL', '5 uL ', '5 u L', '   2 mL', '1  g'):
